@@ -64,6 +64,33 @@ class C02(Prop):
             ops.append(["set", xp, v2]); paths.append(list(path)); cur = X.ref_set(cur, path, v2)
             out.append({"stream": "ops", "tag": "rewrite-after-replace", "input": {"tree": t, "mode": rng.choice(["convert", "convert", "wrap", "json"]),
                                                                                    "ops": ops, "paths": paths}})
+        # long paths: an existing node 20 .. 120 steps down (dictionary and list levels mixed), overwritten at the bottom and
+        # at some inner depths - the number of steps of a path has no limit
+        for _ in range(6 if tier == "quick" else 60):
+            depth = rng.choice([20, 64, 65, 66, 90, 120])
+            leaf = rng.choice([1, "x", None])
+            t, path = leaf, []
+            for lvl in range(depth):
+                if rng.random() < 0.3:
+                    pre = [rng.choice([0, "p"]) for _ in range(rng.randint(0, 2))]
+                    t = pre + [t]
+                    path.insert(0, len(pre))
+                else:
+                    k = rng.choice(["d", "e", "k1"])
+                    t = {k: t, "s": lvl} if rng.random() < 0.5 else {k: t}
+                    path.insert(0, k)
+            if not isinstance(t, dict):
+                t = {"top": t}
+                path.insert(0, "top")
+            cur = copy.deepcopy(t)
+            ops, paths = [], []
+            for cut in [len(path)] + sorted(rng.sample(range(1, len(path)), 2), reverse=True):
+                sub = path[:cut]
+                v = gen_value(rng)
+                ops.append(["set", X.render(cur, sub, rng), v]); paths.append(list(sub))
+                cur = X.ref_set(cur, sub, v)
+            out.append({"stream": "ops", "tag": "deep:%d" % depth, "input": {"tree": t, "mode": rng.choice(["convert", "wrap", "json"]),
+                                                                            "ops": ops, "paths": paths}})
         # keys with leading / trailing blanks, addressed as plain keys on the dictionary that holds them (a plain key is
         # taken as it is; only the steps of a path are trimmed)
         for _ in range(50 if tier == "quick" else 1200):
